@@ -95,6 +95,8 @@ type Harness struct {
 	MaxPaths  int
 	MaxFanout int
 	PreferInt bool // route queries to the bv-as-int back end first
+	PreferCVC5 bool
+	HashCollisions bool // allow 64-bit hash collisions between different streams
 	MaxSwitches int
 	Reach     []string
 	Tier      string
@@ -685,6 +687,7 @@ func (e *Engine) Explore(h *Harness) *HarnessReport {
 			return
 		}
 		solver.PreferBVInt = h.PreferInt
+		solver.PreferCVC5 = h.PreferCVC5
 		defer solver.Close()
 		for {
 			mu.Lock()
